@@ -66,7 +66,14 @@ class Gen:
             d = self.delay()
             if d is None:
                 return None
-            return {"op": "native", "d": d}
+            op = {"op": "native", "d": d}
+            r2 = rng.random()
+            if r2 < 0.3:
+                op["value"] = "n%r" % d          # a coroutine returning a value
+            elif r2 < 0.45:
+                self.serial += 1
+                op["raises"] = self.serial       # a coroutine that fails
+            return op
         if r < 0.7:
             return {"op": "wait", "ev": "E%d" % rng.randrange(self.n_events)}
         if r < 0.8:
